@@ -1,4 +1,18 @@
-"""Obligations about a5.core.compact.compact, shared by C08 (rules C08.*) and C09 (rules C09.*)."""
+"""Obligations about a5.core.compact.compact, shared by C08 (rules C08.*) and C09 (rules C09.*).
+
+Why the two per-level order facts are enough for adjacency (C09.4) -- K is the sort key, anc_q(y) the level-q ancestor of y:
+
+  M(q)  anc_q restricted to level q+1 is monotone:  K(y1) <= K(y2)  =>  K(anc_q(y1)) <= K(anc_q(y2)).
+        Parents compose (C06.7), so anc_b on level a is monotone for every a >= b.
+  W(q)  K(first child) <= K(c) <= K(last child) for every level-q cell c.  Applied level by level: K(c) lies between the
+        keys of its smallest and largest descendant at every finer level.
+
+Let G be a complete sibling group of level rho with parent P, in an antichain, and y another entry with K(first) < K(y) < K(last).
+  * level(y) >= rho:  anc_rho is monotone and fixes first/last, so anc_rho(y) is a level-rho id between them, i.e. a sibling
+    (the preimage of P under a monotone map is an interval of level-rho ids): y is a sibling or a descendant of one -- excluded.
+  * level(y) = r' < rho:  let Q = anc_r'(P) != y (y is not an ancestor).  By W, some level-rho descendants d1 <= y <= d2 of y exist
+    with K(d1) <= K(y) <= K(d2); then K(d1) < K(last) and K(first) < K(d2), and monotonicity of anc_r' gives y <= Q and Q <= y: contradiction.
+So the group is adjacent after sorting; W(rho-1) keeps the list sorted when the group is replaced by P in place."""
 from __future__ import annotations
 
 import ast
